@@ -1,0 +1,8 @@
+//go:build !verif
+
+// Package verifhook contains instrumentation points for external verification tooling.
+// Without the build tag `verif` every function is an empty, inlinable no-op.
+package verifhook
+
+// Order is called on a slice that was freshly filled by ranging over a map.
+func Order[T any](site string, s []T) {}
